@@ -2153,6 +2153,7 @@ namespace gch
 
       template <typename A = alloc_ty, typename V = value_ty,
         typename std::enable_if<is_trivially_constructible<V>::value
+                            &&  std::is_copy_assignable<V>::value
                             &&! must_use_alloc_construct<A, V>::value>::type * = nullptr>
       GCH_CPP20_CONSTEXPR
       ptr
@@ -2168,6 +2169,7 @@ namespace gch
 
       template <typename A = alloc_ty, typename V = value_ty,
         typename std::enable_if<! is_trivially_constructible<V>::value
+                              ||! std::is_copy_assignable<V>::value
                               ||  must_use_alloc_construct<A, V>::value>::type * = nullptr>
       GCH_CPP20_CONSTEXPR
       ptr
